@@ -276,8 +276,11 @@ func (b *sshBackend) serve() {
 type scenario struct {
 	Kind    string `json:"kind"` // http | copy-tcp | copy-udp | dns | ssh
 	Sub     int    `json:"sub"`
-	Mode    string `json:"mode,omitempty"` // lockstep | pipelined
+	Mode    string `json:"mode,omitempty"` // lockstep | pipelined | overlap
 	Cut     int    `json:"cut,omitempty"`  // -1 none
+	// overlap: the first write carries requests 0..After complete plus the first Cut bytes of the next one; the
+	// client reads the replies to the complete requests before it sends the rest
+	After int `json:"after,omitempty"`
 	Clients int    `json:"clients"`
 }
 
@@ -360,6 +363,16 @@ func scenarios(tier string, seed int64) []scenario {
 		for j := 0; j < cuts; j++ {
 			c := 1 + (j*(total-1))/maxi(cuts, 1)
 			out = append(out, scenario{Kind: "http", Sub: i, Mode: r.PickS([]string{"lockstep", "pipelined"}), Cut: c, Clients: 1})
+		}
+		if sq := httpSeq(seed, i); len(sq) > 1 {
+			for a := 0; a+1 < len(sq); a++ {
+				l := len(render(sq[a+1], "c0"))
+				for _, c := range []int{1, 5, 14, l / 2, l - 1} {
+					if c >= 1 && c < l {
+						out = append(out, scenario{Kind: "http", Sub: i, Mode: "overlap", Cut: c, After: a, Clients: 1})
+					}
+				}
+			}
 		}
 	}
 	for i := 0; i < nc; i++ {
@@ -535,7 +548,31 @@ func (e *env) runHTTP(sc scenario, ob *obs) {
 					ob.bad("reply-body", "request %d: client got a body of %d bytes, backend sent %d", i, len(body), len(want.Body))
 				}
 			}
-			if sc.Mode == "pipelined" {
+			if sc.Mode == "overlap" {
+				first := bounds[sc.After] + sc.Cut
+				if first >= bounds[sc.After+1] {
+					first = bounds[sc.After+1] - 1
+				}
+				cl.Send(stream[:first], 3*time.Second)
+				for i := range seq {
+					if i == sc.After+1 {
+						cl.Send(stream[first:], 3*time.Second)
+					}
+					resp, body, ok := parseNext(i)
+					if !ok {
+						omu.Lock()
+						if i <= sc.After {
+							ob.bad("reply-missing|overlap", "request %d was sent completely, together with the first %d bytes of the next one: no (complete) reply within 4 s", i, sc.Cut)
+						} else {
+							ob.bad("reply-missing|overlap-rest", "request %d of %d got no (complete) reply within 4 s", i, len(seq))
+						}
+						omu.Unlock()
+						return
+					}
+					check(i, resp, body)
+					consumed(i, resp, body)
+				}
+			} else if sc.Mode == "pipelined" {
 				var cuts []int
 				if sc.Cut > 0 {
 					cuts = []int{sc.Cut}
